@@ -101,10 +101,10 @@ Lemma example_run :
   parse f = POk [(s2b "Program", s2b "p")] [(s2b "gopls/client:vscode", 7); (s2b "b", 0)].
 Proof. vm_compute. repeat split. Qed.
 
-(* outside the property's quantifier: a counter with the empty name makes the
-   library write a record with name length 0, which no reader accepts *)
-Lemma empty_name_boundary :
-  let f := file_after [OpNew []] in wf_file f = false /\ parse f = PErrCorrupt.
+(* the empty name and names over 4096 bytes are refused and leave the file as it is *)
+Lemma refused_names :
+  fst (run_ops fresh_state [OpNew []; OpAdd (repeat 120 4097) 1]) = [REmpty; RLong] /\
+  file_after [OpNew []; OpAdd (repeat 120 4097) 1] = file_after [].
 Proof. vm_compute. repeat split. Qed.
 
 (* uint32 wrap in place for an allocation limit within 32 bytes of 4 GiB *)
